@@ -106,7 +106,7 @@ func baseKey(name string) string {
 
 func explicitKind(k string) bool {
 	switch {
-	case k == "ensures", k == "invariant-init", k == "invariant-step", k == "decreases", k == "assert", k == "cut", k == "assigns", k == "unwind", k == "vacuity", k == "ground", k == "frozen", k == "split-exhaustive", k == "spec-termination", k == "measure", k == "writers", k == "noninterference":
+	case k == "ensures", k == "invariant-init", k == "invariant-step", k == "decreases", k == "assert", k == "cut", k == "assigns", k == "unwind", k == "vacuity", k == "ground", k == "frozen", k == "split-exhaustive", k == "spec-termination", k == "measure", k == "writers", k == "noninterference", k == "exhaustive":
 		return true
 	case strings.HasPrefix(k, "requires@"):
 		return true
@@ -203,6 +203,9 @@ func runCheck(repo, verif, prop, tier string, verbose, keep bool) int {
 			}
 			continue
 		}
+		if ct.IsLemma && len(ct.Enums) > 0 {
+			continue // decided by exhaustive execution (execObligations below)
+		}
 		tasks = append(tasks, p.unitTasks(ct)...)
 	}
 	cfg := solverCfg(verif, tier, prop)
@@ -220,6 +223,7 @@ func runCheck(repo, verif, prop, tier string, verbose, keep bool) int {
 	gobl := p.groundObligations(verif, prop, tier)
 	all = append(all, gobl...)
 	all = append(all, p.writersObligations(prop)...)
+	all = append(all, p.execObligations(prop, nil)...)
 	sort.Slice(all, func(i, j int) bool { return all[i].Name < all[j].Name })
 
 	// baseline of explicit obligations
